@@ -6,11 +6,13 @@ CONSTANTS
  HashSession = TRUE
  HashId = TRUE
  DedupMode = "peer+id"
+ AtomicDedup = TRUE
  AllowRelay = TRUE
  MCCfgs <- Cfg4
  Bodies = {x, y}
  MaxFSig = 2
  MaxB = 1
+ Conc = 0
  Lists = "best"
 SYMMETRY Sym
 INVARIANTS Safety
